@@ -91,6 +91,21 @@ func ruleC05Roots(c *ctx.Ctx, r *core.Reporter) {
 		}
 		r.Check(ok, "effects:"+k.label, site, fmt.Sprintf("the initialiser effect test has an arm for %s: %s; a variable whose initialiser contains it must not be eliminated", k.label, k.why))
 	}
+	// two more forms that panic at run time, recognised inside the CallExpr and SelectorExpr arms
+	if arm := armOf(v, "*ast.CallExpr"); arm != nil {
+		ok := false
+		for _, m := range findGoPattern(&ast.BlockStmt{List: arm.Body}, `if _, µok := µt.(*types.Array); µok { µv.hasSideEffect = true; return nil }`) {
+			_ = m
+			ok = true
+		}
+		r.Check(ok && strings.Contains(nodeString(c, arm), "(*types.Slice)"), "effects:slice-to-array-conversion", c.Pos(arm.Pos()), "a conversion from a slice to an array or array pointer panics when the slice is too short: it counts as an effect")
+	}
+	if arm := armOf(v, "*ast.SelectorExpr"); arm != nil {
+		src := squash(nodeString(c, arm))
+		r.Check(strings.Contains(src, "types.MethodVal") && strings.Contains(src, "(*types.Interface)"), "effects:method-value-of-interface", c.Pos(arm.Pos()), "a method value taken from an interface (nil interface) or through a pointer panics: it counts as an effect")
+	}
+	{
+	}
 }
 
 func ruleC05Record(c *ctx.Ctx, r *core.Reporter) {
